@@ -26,6 +26,10 @@ SHAPES = [
     ("mstruct-deep", "(lambda (acc i) (MNode acc))", False),
     ("box-deep", "(lambda (acc i) (box acc))", False),
     ("closure-chain", "(lambda (acc i) (lambda () acc))", False),
+    # a container and a closure alternate along one path (lazy-list cells whose tail is a thunk capturing the next cell)
+    ("struct-closure-chain", "(lambda (acc i) (Node (lambda () acc)))", False),
+    ("list-closure-chain", "(lambda (acc i) (list i (lambda () acc)))", False),
+    ("vector-closure-chain", "(lambda (acc i) (vector-immutable (lambda () acc)))", False),
     ("mixed-deep", "(lambda (acc i) (if (even? i) (list (vector-immutable acc)) (hash 'k (box acc))))", False),
 ]
 WIDE = [
@@ -70,7 +74,7 @@ def cells(tier):
         for op, code, want in OPS:
             if not imm and op in ("hash-key",):
                 continue
-            if name == "closure-chain" and op in ("equal-twin",):
+            if "closure-chain" in name and op in ("equal-twin",):
                 continue  # closures are compared by identity
             for d in depths:
                 out.append(("%s/%s" % (name, op), d, [PRE, code.replace("{MK}", "(build %s %d)" % (fn, d))], want))
